@@ -180,6 +180,21 @@ def run(run):
     from vf import sem
     from vf.checks import c03
     progs = [c for c in c03.gen_data(run, quick=True) if "data-empty-item" in c["features"]]
+    # the helpers as the translated program calls them: every operand form of the start index / count / strings
+    starts = ["1", "P", "-P+4", "+P", "P*2-1", "INT(P)", "(P)", "P+0", "LEN(B$)+1", "- -P", "NOT -3", "P AND 3", "M(1)"]
+    for st in starts:
+        for subj, pat in (("A$", "B$"), ('"ABCABC"', '"C"'), ("A$+B$", "B$+B$"), ("LEFT$(A$,4)", "MID$(A$,3,1)")):
+            t = f'10 P=2:A$="ABCABC":B$="C":M(1)=3\n20 Q=INSTR({st},{subj},{pat}):PRINT Q\n30 IF INSTR({st},{subj},{pat})>0 THEN PRINT "Y"\n'
+            progs.append({"text": t, "opts": {"initialize_vars": True, "default_str_storage": 80}, "features": {"instr-program"}, "origin": f"INSTR({st},{subj},{pat})"})
+    for subj, pat in (("A$", "B$"), ('"ABCABC"', '"CA"')):
+        t = f'10 A$="ABCABC":B$="C"\n20 Q=INSTR({subj},{pat}):PRINT Q\n'
+        progs.append({"text": t, "opts": {"initialize_vars": True}, "features": {"instr-program", "instr-2-arguments"}, "origin": f"INSTR({subj},{pat})"})
+    for cnt in ["3", "P", "-P+5", "+P", "P*2", "INT(P)", "LEN(B$)", "0", "M(1)"]:
+        for s_ in ('"*"', "B$", "A$", 'A$+"Z"', "MID$(A$,2,1)", "CHR$(65)"):
+            t = f'10 P=2:A$="XYZ":B$="Q":M(1)=3\n20 R$=STRING$({cnt},{s_}):PRINT "<";R$;">"\n30 PRINT STRING$({cnt},{s_});"|"\n'
+            progs.append({"text": t, "opts": {"initialize_vars": True, "default_str_storage": 80}, "features": {"string-program"}, "origin": f"STRING$({cnt},{s_})"})
+    run.states += len(progs)
+    run.transitions += len(progs)
     j = 0
     for res in core.pmap(_work_prog, progs, chunk=60):
         for kind, sym, detail in res:
